@@ -15,6 +15,7 @@ import (
 // C02 stage-machine: resumable reset / jump are switch-with-fallthrough machines over stateChangeStage.
 func ruleStageMachine(c *Ctx) {
 	jumpTipRecorded(c)
+	atomicStage(c)
 	pk := c.P.Pkg("pkg/core")
 	if pk == nil {
 		c.Lost("anchor", "pkg/core not found")
